@@ -1,9 +1,9 @@
 SPECIFICATION GSpec
 CONSTANTS
-  MaxN = 5
+  MaxN = 6
   MaxOps = 4
   MaxAttempt = 1
-  GenAttempts = 8
+  GenAttempts = 12
   Kinds = {"signing", "dkg"}
   Slots = {1}
   AllCalls = FALSE
